@@ -128,6 +128,59 @@ class EvalSurface(BlockSurface):
         return i[0] == "OK" and ic.strict_same(i[1], m[1])
 
 
+class SameObjectSurface(BlockSurface):
+    """ONE condition object called with a sequence of contexts (x["ctxs"]): every answer must be the answer a fresh object gives
+    -- a per-object memo keyed on the context would confuse True / 1 / 1.0 and False / 0"""
+    name = "sc = StatementCondition.model_validate(block); [sc(ctx) for ctx in ctxs]"
+    theorem = "C12_total / C12_true_iff (each call is a function of the block and ITS context only)"
+
+    def impl(self, x):
+        def run():
+            sc = _sc().model_validate(x["block"])
+            return [sc(ic.ctx_to_py(c)) for c in x["ctxs"]]
+        return core.impl_call(run)
+
+    def model(self, rn, x):
+        out = []
+        for c in x["ctxs"]:
+            m = BlockSurface.model(self, rn, {"block": x["block"], "ctx": c})
+            if m[0] != "OK":
+                return m
+            out.append(m[1])
+        return ("OK", out)
+
+    def agree(self, x, i, m):
+        if i[0] == "EXC" or m[0] == "EXC":
+            return i[0] == m[0] and i[1] == m[1]
+        return len(i[1]) == len(m[1]) and all(ic.strict_same(a, b) for a, b in zip(i[1], m[1]))
+
+    def tags(self, x):
+        return block_tags({"block": x["block"], "ctx": x["ctxs"][0] if x["ctxs"] else {}}) | {"same-object"}
+
+    def nontrivial(self, x, i, m):
+        return m[0] == "OK" and len({repr(v) for v in m[1]}) > 1
+
+
+def twin_contexts(rng, ctx):
+    """contexts equal under == / hash but different for the operators: True~1~1.0, False~0~0.0; plus repeats"""
+    swap = {True: [1, 1.0], False: [0, 0.0]}
+    out = [ctx]
+    for _ in range(rng.randint(1, 3)):
+        c = {}
+        for k, v in ctx.items():
+            if isinstance(v, bool) and rng.random() < 0.7:
+                c[k] = rng.choice(swap[v])
+            elif isinstance(v, int) and not isinstance(v, bool) and v in (0, 1) and rng.random() < 0.7:
+                c[k] = bool(v)
+            else:
+                c[k] = v
+        out.append(c)
+    if rng.random() < 0.5:
+        out.append(ctx)
+    rng.shuffle(out)
+    return out
+
+
 class ConjunctionSurface(core.Surface):
     """Metamorphic, implementation against itself: the block is True iff every single-operator single-key part is True."""
     name = "block(ctx) is True  <->  all parts {op: {k: v}}(ctx) are True"
@@ -157,7 +210,8 @@ class ConjunctionSurface(core.Surface):
 
 
 CALL, EVAL, CONJ = CallSurface(), EvalSurface(), ConjunctionSurface()
-SURFACES = {s.name: s for s in (CALL, EVAL, CONJ)}
+SAME = SameObjectSurface()
+SURFACES = {s.name: s for s in (CALL, EVAL, CONJ, SAME)}
 
 
 def prepare(rn):
@@ -347,3 +401,12 @@ def cases(rng, tier, shard, nshards):
             yield EVAL, x
         if k % 2 == 0:
             yield CONJ, x
+        if k % 4 == 1:
+            yield SAME, {"block": x["block"], "ctxs": twin_contexts(rng, x["ctx"])}
+        if k % 16 == 3:
+            # Bool / Numeric operators on twins, deliberately
+            key = "aws:k"
+            blk = rng.choice([{"Bool": {key: "true"}}, {"Bool": {key: "false"}}, {"NumericEquals": {key: 1}}, {"NumericEquals": {key: 0}},
+                              {"BoolIfExists": {key: "true"}}, {"Null": {key: "false"}, "Bool": {key: "true"}}])
+            seq = [{key: v} for v in rng.sample([True, 1, 1.0, False, 0, 0.0, "true", None], 4)]
+            yield SAME, {"block": blk, "ctxs": seq}
